@@ -182,7 +182,9 @@ def work(arg):
     for c in cases:
         where, label, toks, idx, kind, how = c
         with watchdog(20):
-            if kind == "notunique-cross":
+            if kind.startswith("notunique-builtin"):
+                ok, obs = run_builtin(how, kind.split(":")[1])
+            elif kind == "notunique-cross":
                 ok, obs = run_cross(how)
             else:
                 ok, obs = run_case(where, label, toks, idx, kind, how, None)
@@ -229,8 +231,39 @@ def run_cross(how):
     return got == exp, obs
 
 
+def run_builtin(how, where):
+    """a name defined twice in a builtin model that was itself loaded from a string: neither model has a file name"""
+    from textx import metamodel_from_str
+    from textx.exceptions import TextXError
+    from textx.scoping import ModelRepository
+    from textx.scoping.providers import PlainNameImportURI
+
+    mm = metamodel_from_str(GRAMMAR)
+    mm.register_scope_providers({"*.*": PlainNameImportURI()})
+    bm = metamodel_from_str(GRAMMAR).model_from_str("def z1 def z1 def z2 def z2 def z3")
+    repo = ModelRepository()
+    repo.add_model(bm)
+    mm.builtin_models = repo
+    toks = ['def', 'm1', 'def', 'm2', 'ref', 'a', '->', 'm1', 'ref', 'b', '->', 'z1' if where == "single" else 'z3', 'refs', 'd', '->', 'm2', ',', 'z3', ',',
+            'z2' if where == "list" else 'm1']
+    text, starts = render(toks, how)
+    idx = toks.index("z1") if where == "single" else toks.index("z2")
+    line, col = linecol(text, starts[idx])
+    obs = {"where": "string model + string-loaded builtin model", "injection": "%s defined twice in the builtin model" % toks[idx], "layout": how, "text": text}
+    try:
+        mm.model_from_str(text)
+        obs["observed"] = "loaded"
+        return False, obs
+    except TextXError as e:
+        got = (e.filename, e.line, e.col)
+        obs["message"] = e.message[:80]
+    obs["expected"], obs["observed"] = (None, line, col), got
+    return got == (None, line, col), obs
+
+
 def run(ctx):
     cases = list(all_cases())
+    cases += [("builtin", "ambiguous name in a string-loaded builtin model (%s reference)" % w, None, 0, "notunique-builtin:" + w, how) for how in LAYOUTS for w in ("single", "list")]
     ctx.pmap(work, [cases[i:i + 10] for i in range(0, len(cases), 10)])
     return {
         "rule": "case = (file with the error: main | imported | string model, injection point, layout of %s); injections = garbage token before every token, "
@@ -240,6 +273,8 @@ def run(ctx):
 
 
 def replay(p):
+    if p["kind"].startswith("notunique-builtin"):
+        return run_builtin(p["layout"], p["kind"].split(":")[1])
     if p["kind"] == "notunique-cross":
         return run_cross(p["layout"])
     r = run_case(p["where"], p["label"], p["tokens"], p["idx"], p["kind"], p["layout"], None)
